@@ -350,9 +350,19 @@ func fnCommandList(ctx *cmdContext, args map[string]any) (output respValue, err 
 
 func fnSort(ctx *cmdContext, args map[string]any) (output respValue, err error) {
 	sourceKeyName := args["key"].(string)
-	byPattern, _ := args["by"].(string)
-	offset_count, hasOffset := args["offset_count"].(*orderedMap)
-	getPatternsAny, _ := args["get"].([]any)
+	// argument names as in the bundled command definition (older definitions used by/offset_count/get)
+	byPattern, hasBy := args["by-pattern"].(string)
+	if !hasBy {
+		byPattern, _ = args["by"].(string)
+	}
+	offset_count, hasOffset := args["limit"].(*orderedMap)
+	if !hasOffset {
+		offset_count, hasOffset = args["offset_count"].(*orderedMap)
+	}
+	getPatternsAny, hasGet := args["get-pattern"].([]any)
+	if !hasGet {
+		getPatternsAny, _ = args["get"].([]any)
+	}
 	_, isDesc := args["order.desc"]
 	_, isAlpha := args["sorting"] // this name may be a redis bug
 	destKeyName, _ := args["destination"].(string)
